@@ -45,11 +45,12 @@ class JsonCodeGen(IntermediateCodeGen):
 
         # TODO: reduce code duplication with the other codegens
 
-        searchPath = os.path.join(os.path.dirname(__file__), 'templates')
+        searchPath = [os.path.join(os.path.dirname(__file__), 'templates')]
 
         dstTemplate = kwargs.get('dstTemplate')
         if dstTemplate:
             searchPath.insert(0, os.path.dirname(os.path.abspath(dstTemplate)))
+            dstTemplate = os.path.basename(dstTemplate)
 
         env = jinja2.Environment(loader=jinja2.FileSystemLoader(searchPath),
                                  trim_blocks=True, lstrip_blocks=True)
